@@ -31,7 +31,15 @@ type parsePath struct{ cond, res string }
 
 type parseTr struct {
 	c     *ctxT
-	denom string // name of the packet-denomination parameter
+	denom string // name of the packet-denomination parameter (or the expression that holds it: `data.Denom`)
+	pkg   string // qualifier of ibc-go's transfer types package in the translated file (`transfertypes`; `types` inside ibc-go)
+}
+
+func (t *parseTr) q() string {
+	if t.pkg == "" {
+		return "transfertypes"
+	}
+	return t.pkg
 }
 
 // inline prints an expression with every local variable replaced by the expression it is bound to
@@ -74,11 +82,9 @@ func (t *parseTr) inline(e ast.Expr, env map[string]string) string {
 	return strings.Join(strings.Fields(t.c.src(e)), "")
 }
 
-var (
-	reDenomPrefix = `transfertypes\.GetDenomPrefix\(([^,()]+(?:\(\))?),([^,()]+(?:\(\))?)\)`
-	reStrip       *regexp.Regexp
-	rePrefixed    *regexp.Regexp
-)
+func reDenomPrefixOf(pkg string) string {
+	return regexp.QuoteMeta(pkg) + `\.GetDenomPrefix\(([^,()]+(?:\(\))?),([^,()]+(?:\(\))?)\)`
+}
 
 func portOf(chanExpr string) string {
 	switch chanExpr {
@@ -99,16 +105,20 @@ func (t *parseTr) result(e ast.Expr, env map[string]string) string {
 	if v, ok := t.c.c19Const(e); ok {
 		return "(.const " + leanStr(v) + ")"
 	}
-	s := t.inline(e, env)
+	return t.classify(t.inline(e, env))
+}
+
+// classify: the two shapes of a computed denomination, on the fully inlined expression text
+func (t *parseTr) classify(s string) string {
 	if s == t.denom {
 		return ".same"
 	}
 	q := regexp.QuoteMeta
-	{
-		u := q(t.denom) + `\[len\(` + reDenomPrefix + `\):\]`
-		reStrip = regexp.MustCompile(`^ite\(!transfertypes\.ParseDenomTrace\(` + u + `\)\.IsNativeDenom\(\),transfertypes\.ParseDenomTrace\(` + u + `\)\.IBCDenom\(\),` + u + `\)$`)
-		rePrefixed = regexp.MustCompile(`^transfertypes\.ParseDenomTrace\(` + reDenomPrefix + `\+` + q(t.denom) + `\)\.IBCDenom\(\)$`)
-	}
+	reDenomPrefix := reDenomPrefixOf(t.q())
+	pk := q(t.q())
+	u := q(t.denom) + `\[len\(` + reDenomPrefix + `\):\]`
+	reStrip := regexp.MustCompile(`^ite\(!` + pk + `\.ParseDenomTrace\(` + u + `\)\.IsNativeDenom\(\),` + pk + `\.ParseDenomTrace\(` + u + `\)\.IBCDenom\(\),` + u + `\)$`)
+	rePrefixed := regexp.MustCompile(`^` + pk + `\.ParseDenomTrace\(` + reDenomPrefix + `\+` + q(t.denom) + `\)\.IBCDenom\(\)$`)
 	if m := reStrip.FindStringSubmatch(s); m != nil {
 		// the same (port, channel) in all three places, and the port of the same end as the channel
 		if m[1] == m[3] && m[1] == m[5] && m[2] == m[4] && m[2] == m[6] && portOf(m[2]) == m[1] {
@@ -168,7 +178,7 @@ func (t *parseTr) cond(e ast.Expr, env map[string]string) string {
 				switch t.inline(p[0], env) {
 				case t.denom:
 					return wrap("(.denomEq " + leanStr(v) + ")")
-				case "transfertypes.ParseDenomTrace(" + t.denom + ").BaseDenom", "transfertypes.ParseDenomTrace(" + t.denom + ").GetBaseDenom()":
+				case t.q() + ".ParseDenomTrace(" + t.denom + ").BaseDenom", t.q() + ".ParseDenomTrace(" + t.denom + ").GetBaseDenom()":
 					return wrap("(.baseEq " + leanStr(v) + ")")
 				}
 			}
